@@ -909,7 +909,9 @@ class Filter:
         except LiquidError:
             raise
         except (TypeError, ValueError, ArithmeticError, LookupError) as err:
-            raise LiquidTypeError(f"{self.name}: {err}", token=self.token) from err
+            raise LiquidTypeError(
+                f"{self.name}: {to_str(err)}", token=self.token
+            ) from err
 
     async def evaluate_async(self, left: object, context: RenderContext) -> object:
         func = context.filter(self.name, token=self.token)
@@ -924,7 +926,9 @@ class Filter:
         except LiquidError:
             raise
         except (TypeError, ValueError, ArithmeticError, LookupError) as err:
-            raise LiquidTypeError(f"{self.name}: {err}", token=self.token) from err
+            raise LiquidTypeError(
+                f"{self.name}: {to_str(err)}", token=self.token
+            ) from err
 
     def _raise_for_reserved_arguments(
         self, func: object, keyword_args: dict[str, object]
@@ -1721,7 +1725,7 @@ class LoopExpression(Expression):
             return iter(obj), len(obj)
 
         raise LiquidTypeError(
-            f"expected an iterable at '{self.iterable}', found '{obj}'",
+            f"expected an iterable at '{self.iterable}', found '{to_str(obj)}'",
             token=self.token,
         )
 
